@@ -4,6 +4,11 @@
   result line per operation.
 -/
 import Minicbor.Drv.Core
+import Minicbor.Drv.Derive
+import Minicbor.Drv.Typed
+import Minicbor.Drv.Token
+import Minicbor.Drv.Frame
+import Minicbor.Drv.Serde
 
 open Minicbor Minicbor.Drv
 
@@ -13,6 +18,22 @@ def dispatch (line : String) : String :=
   | "enc" :: w => encOp w
   | "dec" :: w => decOp w
   | "encspec" :: w => encSpec w
+  | "tenc" :: w => Typed.tencOp w
+  | "tdec" :: w => Typed.tdecOp w
+  | "tokenc" :: w => Tok.tokencOp w
+  | "tokdec" :: w => Tok.tokdecOp w
+  | "display" :: w => Tok.displayOp w
+  | "fwrite" :: w => fwriteOp w
+  | "fread" :: w => freadOp w
+  | "aread" :: w => areadOp w
+  | "awrite" :: w => awriteOp w
+  | "denc" :: w => Dv.dencOp w
+  | "dspec" :: w => Dv.dspecOp w
+  | "ddec" :: w => Dv.ddecOp w
+  | "dcompat" :: w => Dv.dcompatOp w
+  | "dproject" :: w => Dv.dprojectOp w
+  | "daccept" :: w => Dv.dacceptOp w
+  | "ser" :: w => serdeOp ("ser" :: w) | "de" :: w => serdeOp ("de" :: w) | "rt" :: w => serdeOp ("rt" :: w) | "iser" :: w => serdeOp ("iser" :: w) | "ide" :: w => serdeOp ("ide" :: w)
   | _ => "bad-op"
 
 partial def loop (h : IO.FS.Stream) (out : IO.FS.Stream) : IO Unit := do
